@@ -6,6 +6,7 @@ CONSTANTS N = 3
           MaxFails = 2
           CaseN = 2
           CaseCrashes = 2
+          CaseKinds = {"L1", "E", "L2"}
           CasePre = {"absent", "partial", "complete"}
 INVARIANTS C35_RecordedWereSeenComplete C35_SuccessfulSyncShippedAll C28_Holds
 PROPERTIES EventuallyShipped
